@@ -126,12 +126,21 @@ fn get_key_offset(
 	path_of_includer: &std::path::Path,
 ) -> Option<usize>
 {
-	let filepath = std::path::Path::new(filename);
-	keys.iter().position(|x| x == filepath).or_else(|| {
+	// `./a/util.pn` and `a/util.pn` are the same file.
+	fn without_curdir(path: &std::path::Path) -> std::path::PathBuf
+	{
+		path.components()
+			.filter(|x| !matches!(x, std::path::Component::CurDir))
+			.collect()
+	}
+	let filepath = without_curdir(std::path::Path::new(filename));
+	let position =
+		|path: &std::path::Path| keys.iter().position(|x| without_curdir(x) == path);
+	position(&filepath).or_else(|| {
 		path_of_includer
 			.parent()
-			.map(|path| path.join(filepath))
-			.and_then(|path| keys.iter().position(|x| x == &path))
+			.map(|path| without_curdir(&path.join(&filepath)))
+			.and_then(|path| position(&path))
 	})
 }
 
